@@ -1,6 +1,8 @@
 #!/bin/sh
-# usage: run_seeds.sh C02 C06 ...
-git -C /tmp/vseed checkout -q -- . ; for p in "$@"; do
+# usage: [NS="5 6"] [VERIF_COPY=/tmp/vseed2] run_seeds.sh C02 C06 ...   (seeds in /tmp/seed_<id>/seeded/<n>)
+COPY=${VERIF_COPY:-/tmp/vseed}
+export VERIF_COPY=$COPY
+git -C $COPY checkout -q -- . ; for p in "$@"; do
   for n in ${NS:-1 2}; do
     d=/tmp/seed_$p/seeded/$n
     [ -f $d/patch.diff ] || continue
